@@ -26,6 +26,7 @@ pub struct FnSpec {
     pub at: Vec<(String, String)>,
     pub lettype: BTreeMap<String, String>,
     pub whilelet: BTreeSet<usize>,
+    pub foridx: BTreeSet<usize>, // R-FORIDX: K-th loop `for P in SLICE` -> indexed while loop
     pub may_panic: BTreeSet<usize>,
     pub letsplit: Vec<String>,
     pub refop: Vec<String>,
@@ -346,6 +347,7 @@ pub fn parse(text: &str) -> Result<Unit, String> {
                         f.argtype.insert(n.to_string(), ty.trim().to_string());
                     }
                     "whilelet" => { for k in a.split_whitespace() { f.whilelet.insert(k.parse().map_err(|_| format!("line {ln}: @whilelet K"))?); } }
+                    "foridx" => { for k in a.split_whitespace() { f.foridx.insert(k.parse().map_err(|_| format!("line {ln}: @foridx K"))?); } }
                     "may-panic" => { for k in a.split_whitespace() { f.may_panic.insert(k.parse().map_err(|_| format!("line {ln}: @may-panic K"))?); } }
                     "letsplit" => f.letsplit.extend(a.split_whitespace().map(String::from)),
                     "refop" => f.refop.extend(a.split_whitespace().map(String::from)),
